@@ -329,6 +329,25 @@ def marg_bits(rep, ex: Explorer):
         for case in lp.cases:
             d = dict(case.guard)
             sets = [ev for ev, Q in iter_events(case.events) if ev.kind == "dict.set"]
+            if not sets and case.sig[0] == "next" and d.get(("isnone", ("storedrank", wv))) is False:
+                # a ranked world that leaves the marginal untouched: only right when its reduced world already holds a rank
+                # that is not larger (an explicit comparison said so)
+                pres = [v for k, v in d.items() if k[0] == "in" and isinstance(k[2], tuple) and k[2][0] == "dict"]
+                unset_ = [v for k, v in d.items() if k[0] == "isnone" and isinstance(k[1], tuple) and k[1][:1] == ("dictitem",)]
+                stored_ = ("storedrank", wv)
+                kept_smaller = False
+                for k, v in d.items():
+                    if k[0] == "cmp" and k[1] == "<" and isinstance(v, bool):
+                        a_, b_ = k[2], k[3]
+                        if a_ == stored_ and isinstance(b_, tuple) and b_[:1] == ("dictitem",):
+                            kept_smaller = (v is False)      # not (new < old)
+                        elif b_ == stored_ and isinstance(a_, tuple) and a_[:1] == ("dictitem",):
+                            kept_smaller = kept_smaller or v is True   # old < new
+                first = (not pres or pres[-1] is False) or (unset_ and unset_[-1] is True)
+                n += 1
+                rep.check(kept_smaller and not first, "MARG.bits", site, "ranked world without effect" + (" (first extension)" if first else " (collision)"),
+                          "every ranked world takes part in the minimum of its reduced world: it is stored when it is the first extension, and on a collision unless the stored rank is already not larger",
+                          extracted="the world's rank is dropped" + ("" if kept_smaller else " without comparing it with the stored rank"), required="stored / compared", function=site)
             for ev in sets:
                 n += 1
                 key = ev.key
@@ -358,7 +377,11 @@ def marg_bits(rep, ex: Explorer):
                     okv = isinstance(val, Sym) and val.label == stored
                     rep.check(okv, "MARG.bits", f"{site}:{ev.node.lineno}", "first extension", "the first extension of a reduced world contributes its own rank", extracted=repr(val), required="rank of the world", function=site)
                 else:
-                    okv = isinstance(val, LinV) and len(val.lin[0]) == 1 and isinstance(val.lin[0][0][0], tuple) and val.lin[0][0][0][0] == "min" and stored in val.lin[0][0][0][1] and len(val.lin[0][0][0][1]) == 2
+                    okv = False
+                    if isinstance(val, LinV) and len(val.lin[0]) == 1 and val.lin[1] == 0 and val.lin[0][0][1] == 1 and isinstance(val.lin[0][0][0], tuple) and val.lin[0][0][0][0] == "min":
+                        ops = val.lin[0][0][0][1]
+                        # the two operands: the world's own rank and what the reduced world holds so far
+                        okv = len(ops) == 2 and stored in ops and any(isinstance(o_, tuple) and o_[:1] == ("dictitem",) and (len(o_) < 3 or o_[2] == desc(ev.key)) for o_ in ops)
                     if not okv and isinstance(val, Sym):
                         # the minimum written as an explicit comparison: the stored value is the smaller of the two on this path
                         for k, v in d.items():
@@ -383,6 +406,11 @@ def marg_bits(rep, ex: Explorer):
                     _, b, fam, g, val = sigv[0][1][0]
                     ok = g == ("not", ("in", ("elem", b, "str"), ELIM)) and isinstance(val, ElemV) and val.var == b
                 rep.check(ok, "MARG.bits", f"{site}:{ev.node.lineno}", "new signature", "the new signature is the old one without the eliminated atoms, in the same order", extracted=repr(sigv[0][1][0][3]) if sigv else "not found", required="[s for s in signature if s not in eliminated]", function=site)
+                # the ranks handed to the new ranking object are the ones computed here
+                built = {e2.obj.oid for e2, Q2 in iter_events(p.events) if e2.kind == "dict.set" and Q2 and Q2[0][0].fam == WORLDS and isinstance(e2.obj, Ref)}
+                first = ev.args[0] if ev.args else None
+                rep.check(isinstance(first, Ref) and first.oid in built, "MARG.bits", f"{site}:{ev.node.lineno}", "marginal ranks handed on", "the new ranking object is built from the marginal ranks computed here",
+                          extracted=repr(first), required="the computed ranks", function=site)
     rep.floor("MARG.bits stores", n, 2)
 
 
@@ -906,7 +934,8 @@ def _fresh_counter(p, fam):
                     continue
                 if isinstance(init, LinV) and len(init.lin[0]) == 1 and isinstance(init.lin[0][0][0], tuple) and init.lin[0][0][0][0] == "max":
                     t = init.lin[0][0][0]
-                    over_keys = "('keys', 'D')" in repr(t)
+                    from ..harness import agg_over_keys
+                    over_keys = agg_over_keys(t)
                     dflt = [x for x in t if isinstance(x, tuple) and x and x[0] == "default"]
                     start_ok = over_keys and init.lin[1] >= 1 and init.lin[0][0][1] == 1 and (not dflt or dflt[0][1] == ("c", 0))
                     carried = ("carried", ev.loop, name)
@@ -931,7 +960,8 @@ def _fresh_counter(p, fam):
             if pos == 1 and len(mx) == 1 and len(terms) == 1 and mx[0][1] == 1:
                 t = mx[0][0]
                 dflt = [x for x in t if isinstance(x, tuple) and x and x[0] == "default"]
-                if "('keys', 'D')" in repr(t) and ev.key.lin[1] >= 1 and (not dflt or dflt[0][1] == ("c", 0)):
+                from ..harness import agg_over_keys
+                if agg_over_keys(t) and ev.key.lin[1] >= 1 and (not dflt or dflt[0][1] == ("c", 0)):
                     return True
                 return f"key {ev.key!r} is not above the highest key of the base"
     return "no running key found"
@@ -1025,7 +1055,8 @@ def fact_builder_sibling(rep, ex: Explorer):
         if isinstance(st, LinV) and len(st.lin[0]) == 1 and st.lin[1] == 0 and st.lin[0][0][1] == 1 and isinstance(st.lin[0][0][0], tuple) and st.lin[0][0][0][0] == "max":
             t = st.lin[0][0][0]
             dflt = [x for x in t if isinstance(x, tuple) and x and x[0] == "default"]
-            ok = "('keys', 'D')" in repr(t) and "'key')" in repr(t) and (not dflt or dflt[0][1] == ("c", 0))
+            from ..harness import agg_over_keys
+            ok = agg_over_keys(t) and (not dflt or dflt[0][1] == ("c", 0))
         elif st is not None and not isinstance(st, (Const, LinV)):
             raise AnalysisError(f"{site2}: start index in a form the analysis does not read: {st!r}")
         rep.check(ok, "FACT.shape", f"{site2}:{calls[0].node.lineno}", "start index", "facts are keyed above the highest key of the base", extracted=repr(st)[:120], required="max(keys of the base, default 0)", function=site2)
